@@ -98,6 +98,18 @@ def mod_expr(self: "FcpV2Transformer", tree: "ref:LarkTree") -> "any":
                             and self.fcp.impls == old(self.fcp.impls) + effect_result("call:FcpV2Transformer().transform", 0).unwrap().impls
                             and self.fcp.services == old(self.fcp.services) + effect_result("call:FcpV2Transformer().transform", 0).unwrap().services
                             and self.fcp.devices == old(self.fcp.devices) + effect_result("call:FcpV2Transformer().transform", 0).unwrap().devices))
+    # C08: an error found inside the module is CHAINED, not replaced: the returned error is the module's own error object (which
+    # names the type and the enclosing struct, composed_type / struct callbacks) with one more message appended to it
+    ensures_effects(implies(effect_count("call:FcpV2Transformer().transform") == 1
+                            and effect_result("call:FcpV2Transformer().transform", 0).is_err(),
+                            result.is_err() and result.err() is effect_result("call:FcpV2Transformer().transform", 0).err()
+                            and effect_count("append") == 1))
+    # C11: the module's text is registered with the logger before it is parsed, so that a syntax error citing the module can be rendered
+    ensures_effects(implies(effect_count("call:lark.Lark().parse") + effect_count("raise:lark.Lark().parse") >= 1,
+                            effect_count("call:Logger.add_source") == 1
+                            and effect_index("call:Logger.add_source", 0)
+                            < (effect_index("call:lark.Lark().parse", 0) if effect_count("call:lark.Lark().parse") == 1
+                               else effect_index("raise:lark.Lark().parse", 0))))
     # errors: a missing file, a syntax error in the module and an error returned by the nested transformer all give Err and leave the schema alone
     ensures_effects(implies(effect_count("raise:read_file") == 1, result.is_err()))
     ensures_effects(implies(effect_count("raise:lark.Lark().parse") == 1, result.is_err()))
